@@ -259,8 +259,8 @@ def subs(tier: str):
     q = tier == "quick"
     return [
         Sub("pairs-exhaustive", check_pair, "exhaustive", cases=_exhaustive_pairs, exhaustive_flag=True),
-        Sub("pairs-random", check_pair, "hypothesis", strategy=lambda: _random_pair(6 if q else 10), examples=100 if q else 1500),
+        Sub("pairs-random", check_pair, "hypothesis", strategy=lambda: _random_pair(6 if q else 10), examples=100 if q else 6000),
         Sub("bounds-exhaustive", check_bounds, "exhaustive", cases=_bounds_cases, exhaustive_flag=True),
-        Sub("bounds-random", check_bounds, "hypothesis", strategy=lambda: _bounds_random(6 if q else 12), examples=60 if q else 600),
-        Sub("datasets", check_dataset, "hypothesis", strategy=_dataset_pair, examples=25 if q else 300),
+        Sub("bounds-random", check_bounds, "hypothesis", strategy=lambda: _bounds_random(6 if q else 12), examples=60 if q else 3000),
+        Sub("datasets", check_dataset, "hypothesis", strategy=_dataset_pair, examples=25 if q else 1500),
     ]
